@@ -14,7 +14,10 @@
 
    Second half of the file: the lax model refines a lax reference decoder over absolute
    positions (Parse/LaxWire.v); corollaries: the lax model never returns Bug, whole-packet
-   (d) (C05_incomplete_iff_packet) and whole-packet (b) (C05_lax_prefix). *)
+   (d) (C05_incomplete_iff_packet) and whole-packet (b) (C05_lax_prefix; for faults inside the
+   network layer -- authentication header, IPv6 extension chain, IP length fallbacks --
+   C05_lax_prefix_net at the end of the file: network layer decoded in front of the fault, exact
+   layer tag). *)
 From EP Require Import Base.Bytes Parse.Types Parse.Slices Parse.Cursor Parse.View Parse.WireSpec
   Parse.LaxSlices Parse.LaxCursor Parse.LaxView Parse.LaxProofs Parse.LaxFacts.
 
@@ -103,20 +106,15 @@ Proof.
 Qed.
 Print Assumptions C05_incomplete_iff.
 
-(* ---- (b), per layer (kept; the whole-packet statement is C05_lax_prefix at the end of
-   this file, lax-never-Bug is C05_lax_never_bug / C05_lax_never_bug_single) ---------------
-   Full statement (proved per layer here, for the whole-packet cursor below):
-     forall bs, ~ KnownClass_F10 bs ->
-       SlicedPacket.from_X bs = Err e at a layer behind the first header ->
-       exists r', LaxSlicedPacket.from_X bs = Ok r' /\
-         (every layer of r' in front of the fault is the reference decoder's) /\
-         (e is one of the three length fallbacks (IP total/payload length, MACsec short length,
-          UDP length) \/ exists e' L, lsp_stop_err r' = Some (e', L) /\ same_fault e e' /\ tag_ok e' L).
-   Proved: the same statement layer by layer (IPv4 incl. authentication header, IPv6 incl.
-   the extension chain, both extension collectors, UDP, and the transport step of the cursor),
-   with `Bug _ => True` on the lax side (that the lax model never returns Bug is not proved
-   here).  Missing: the link-extension loop / ARP / IP dispatch of the whole-packet cursor in
-   the rejecting case, the reference decoding of the layers in front of the fault, no-Bug. *)
+(* ---- (b), per layer: the single-layer lax decoders against their strict counterparts -----
+   (IPv4 incl. authentication header, IPv6 incl. the extension chain, both extension collectors,
+   UDP, and the transport step of the cursor).  The statements carry `Bug _ => True` on the lax
+   side; that the lax decoders never return Bug is C05_lax_never_bug / C05_lax_never_bug_single
+   below.  The `_partial` in the names is historical: the whole-packet statement (link-extension
+   loop, ARP, IP dispatch, the layers in front of the fault against the instrumented strict
+   reference decoder) is C05_lax_prefix, and for faults inside the network layer (IP header,
+   extension headers in front of the fault, payload descriptor, exact layer tag)
+   C05_lax_prefix_net, both further down in this file. *)
 Theorem C05_lax_prefix_partial : forall s nh,
   (forall e, Ipv4Slice.from_slice s = Err e ->
      match LaxIpv4Slice.from_slice s with
@@ -312,7 +310,10 @@ Print Assumptions C05_partial_reference_sound.
        IP-header fault with tag IpHeader at the same offset.
    Covers the rejecting cases of the link-extension loop (VLAN, MACsec header, MACsec short
    length), ARP, the IP dispatch, both IP families incl. authentication header and extension
-   chain, and the transport step. *)
+   chain, and the transport step.
+   q has LAYER granularity: for a fault inside the network layer (authentication header, extension
+   chain, IPv4 total length / IPv6 payload length) `v_net q = None`, i.e. this theorem then says
+   nothing about the network layer of r'; that case is C05_lax_prefix_net below. *)
 Theorem C05_lax_prefix : forall bs et, bytes_ok bs ->
   (14 <= len bs ->
    prefix_ok bs (SlicedPacket.from_ethernet bs) (pwire_ethernet bs) (LaxSlicedPacket.from_ethernet bs)) /\
@@ -461,35 +462,40 @@ Check (eq_refl : same_payload =
                                    vep_type e = vep_type e' /\ vep_win e = vep_win e').
 
 (* (b): strict slicing rejects with e behind the first header  ==>  the instrumented reference decoder
-   rejects with (q, e_ref) (q = the layers in front of the fault, e_ref = the fault, C03/C07 relation
-   to e), LaxPacketHeaders returns Ok p, and outside F10: the link extensions and the network header
-   of q are layers of p with their header windows (a transport layer of q is a transport layer of p),
-   and e_ref is a documented length fallback, or the stop error of p is the same record (length
-   source: the true one, Slice, or F7) with a fitting layer tag, or (F11 group) e_ref is a fault of the
-   IP header itself and the stop error of p is a fault of the IP header with tag IpHeader (at the same
-   offset unless p is in the F11-like class `f11_stop`) *)
+   rejects with (q, e_ref) (q = the layers in front of the fault -- it never contains a transport layer --,
+   e_ref = the fault, C03/C07 relation to e), LaxPacketHeaders returns Ok p, and outside F10: the link
+   extensions and the network header of q are layers of p with their header windows, and e_ref is a
+   documented length fallback, or the stop error of p is the same record (length source: the true one,
+   Slice, or F7) with a fitting layer tag, or (F11 group) e_ref is a fault of the IP header itself and the
+   stop error of p is a fault of the IP header with tag IpHeader (at the same offset unless p is in the
+   F11-like class `f11_stop`).
+   Audit round 1: `hdr_prefix` of Parse/HdrLaxC05.v had a third conjunct `v_transport q = None \/
+   lhv_tr v <> None` that is vacuous (the prefix of a rejection never has a transport layer:
+   pwire_rej_no_transport, Parse/LaxHdrPrefix2.v); it is replaced by the fact `v_transport q = None`.
+   As for C05_lax_prefix, q has layer granularity: for a fault inside the network layer `v_net q = None`. *)
+From EP Require Import Parse.LaxHdrPrefix2.
 Theorem C05_headers_lax_prefix : forall bs et, bytes_ok bs ->
   (14 <= len bs ->
-   hdr_prefix_ok bs (SlicedPacket.from_ethernet bs) (pwire_ethernet bs)
+   hdr_prefix_ok2 bs (SlicedPacket.from_ethernet bs) (pwire_ethernet bs)
      (LaxCut.from_ethernet true bs) (LaxPacketHeaders.from_ethernet bs)) /\
-  hdr_prefix_ok bs (SlicedPacket.from_ether_type et bs) (pwire_ether_type bs et)
+  hdr_prefix_ok2 bs (SlicedPacket.from_ether_type et bs) (pwire_ether_type bs et)
     (LaxCut.from_ether_type true et bs) (LaxPacketHeaders.from_ether_type et bs) /\
   (ip_header_fault bs = None ->
-   hdr_prefix_ok bs (SlicedPacket.from_ip bs) (pwire_from_ip bs)
+   hdr_prefix_ok2 bs (SlicedPacket.from_ip bs) (pwire_from_ip bs)
      (LaxCut.from_ip true bs) (LaxPacketHeaders.from_ip bs)).
-Proof. exact hdr_lax_prefix. Qed.
+Proof. exact hdr_lax_prefix2. Qed.
 Print Assumptions C05_headers_lax_prefix.
 
-Check (eq_refl : hdr_prefix_ok =
+Check (eq_refl : hdr_prefix_ok2 =
   fun bs strict pw laxcut lh => forall e, strict = Err e -> lax_stopped_at_ext laxcut = false ->
     exists q e_ref p v,
-      pw = PRej q e_ref /\ res_rel (VErr e) (VErr e_ref) /\ lh = Ok p /\ lhview_of p = Ok v /\
-      (~ F10_class bs e_ref -> hdr_prefix q v /\ hdr_outcome e_ref v)).
-Check (eq_refl : hdr_prefix =
+      pw = PRej q e_ref /\ v_transport q = None /\ res_rel (VErr e) (VErr e_ref) /\ lh = Ok p /\
+      lhview_of p = Ok v /\
+      (~ F10_class bs e_ref -> hdr_prefix2 q v /\ hdr_outcome e_ref v)).
+Check (eq_refl : hdr_prefix2 =
   fun q v =>
     (exists rest, lhv_exts v = map ext_hdr (v_exts q) ++ rest) /\
-    (v_net q = None \/ option_map net_hdr (v_net q) = lhv_net v) /\
-    (v_transport q = None \/ lhv_tr v <> None)).
+    (v_net q = None \/ option_map net_hdr (v_net q) = lhv_net v)).
 Check (eq_refl : hdr_outcome =
   fun e v =>
     fallback e \/
@@ -527,3 +533,201 @@ Proof.
   split; [vm_compute; discriminate|]. repeat split; vm_compute; reflexivity.
 Qed.
 (* ---- end extend-c04lax ---- *)
+
+(* ---- audit round 1 (C05): faults INSIDE the network layer ------------------------------------------
+   `pwire_*` above has layer granularity: for a fault inside the network layer (IPv4 authentication
+   header, IPv6 extension header chain, IPv4 total length / IPv6 payload length larger than the data) its
+   rejection prefix q has `v_net q = None`, so C05_lax_prefix says nothing about the IP header, the good
+   extension headers in front of the faulty one, or the IP payload descriptor of the lax result.
+   `pwire2_*` (Parse/LaxWire2.v) is the same strict reference decoder instrumented more finely:
+     P2RejNet q n tag e   fault e at an authentication / extension header of kind `tag` behind a good IP
+                          header; n = the network layer as far as it decodes (IP header window; IPv6: first
+                          next-header, fragmentation flag so far, window of the extension headers completely
+                          decoded in front of the faulty one; payload descriptor = from the faulty header to
+                          the end of what the IP length field allows, ip number = the one that announced
+                          the faulty header)
+     P2Fb q e inc resumed e = the IPv4 total length / IPv6 payload length check (documented fallback);
+                          resumed = the same strict decoder continued with the data that is there (limit =
+                          end of the enclosing data, length source Slice), inc = the field promised more
+                          than is there
+     P2Rej q e            any other rejection, as pwire.
+   Forgetting the extra information gives pwire back, hence WireSpec: pwire2 accepts / rejects exactly like
+   the wire format specification, with the same error record. *)
+From EP Require Import Parse.LaxWire2 Parse.LaxPrefixNet.
+
+Theorem C05_partial_reference2_sound : forall bs et,
+  (to_pres (pwire2_ethernet bs) = pwire_ethernet bs /\
+   to_pres (pwire2_ether_type bs et) = pwire_ether_type bs et /\
+   to_pres (pwire2_from_ip bs) = pwire_from_ip bs) /\
+  (forget (to_pres (pwire2_ethernet bs)) = wire_ethernet bs /\
+   forget (to_pres (pwire2_ether_type bs et)) = wire_ether_type bs et /\
+   forget (to_pres (pwire2_from_ip bs)) = wire_from_ip bs).
+Proof. exact (fun bs et => conj (pwire2_is_pwire bs et) (pwire2_sound bs et)). Qed.
+Print Assumptions C05_partial_reference2_sound.
+
+Check (eq_refl : to_pres =
+  fun r => match r with
+           | P2Acc p => PAcc p
+           | P2Rej p e | P2RejNet p _ _ e | P2Fb p e _ _ => PRej p e
+           | P2Bug s => PBug s
+           end).
+
+(* strict model = Err e behind the first header  ==>  pwire2 rejects with e_ref = the fault the strict model
+   reports (C03/C07 relation res_rel); it answers P2RejNet / P2Fb EXACTLY when e names a place inside the
+   network layer (in_net_layer e: layer IpAuthHeader / Ipv6ExtHeader / Ipv6FragHeader / Ipv4Packet /
+   Ipv6Packet, or content error zero authentication payload length / hop-by-hop not at start); the lax model
+   returns Ok r' and
+     - P2RejNet _ n tag e_ref : the network layer of r' is exactly n, the stop error is exactly (e_ref, tag)
+       -- the same record incl. length source, on the tag of the faulty header (Ipv6HopByHopHeader /
+       Ipv6DestOptionsHeader / Ipv6RouteHeader / Ipv6FragHeader / IpAuthHeader) -- and no transport layer;
+     - P2Fb _ e_ref inc resumed : the network layer n of r' has incomplete = inc and len_source = Slice
+       (clause (d)), and it is the network layer of the resumed strict decoding: if that fails inside the
+       network layer (P2RejNet), n is exactly its network layer and the stop error exactly its (error, tag);
+       if it accepts or fails behind the network layer, its network layer is n without the incomplete flag,
+       and a fault e' behind it is again a documented fallback or recorded (lax_outcome e').
+   No F10 exclusion is needed: in the F10 class pwire2 answers P2Rej.  Holds for all byte strings. *)
+Theorem C05_lax_prefix_net : forall bs et, bytes_ok bs ->
+  (14 <= len bs ->
+   prefix_net_ok (SlicedPacket.from_ethernet bs) (pwire2_ethernet bs) (LaxSlicedPacket.from_ethernet bs)) /\
+  prefix_net_ok (SlicedPacket.from_ether_type et bs) (pwire2_ether_type bs et)
+    (LaxSlicedPacket.from_ether_type et bs) /\
+  (ip_header_fault bs = None ->
+   prefix_net_ok (SlicedPacket.from_ip bs) (pwire2_from_ip bs) (LaxSlicedPacket.from_ip bs)).
+Proof. exact lax_prefix_net_packet. Qed.
+Print Assumptions C05_lax_prefix_net.
+
+(* pin the meaning *)
+Check (eq_refl : prefix_net_ok =
+  fun strict pw lax => forall e, strict = Err e ->
+    exists e_ref r',
+      rej2 pw = Some e_ref /\ res_rel (VErr e) (VErr e_ref) /\
+      is_net_rej pw = in_net_layer e /\
+      lax = Ok r' /\ net_outcome lax_outcome pw (lview r')).
+Check (eq_refl : rej2 =
+  fun r => match r with P2Rej _ e | P2RejNet _ _ _ e | P2Fb _ e _ _ => Some e | _ => None end).
+Check (eq_refl : is_net_rej =
+  fun r => match r with P2RejNet _ _ _ _ | P2Fb _ _ _ _ => true | _ => false end).
+Check (eq_refl : in_net_layer =
+  fun e => match e with
+           | ELen l => match le_layer l with
+                       | LyIpAuthHeader | LyIpv6ExtHeader | LyIpv6FragHeader | LyIpv4Packet | LyIpv6Packet => true
+                       | _ => false
+                       end
+           | EContent c => match c with
+                           | CeAuthZeroPayloadLen | CeIpv6AuthZeroPayloadLen | CeHopByHopNotAtStart => true
+                           | _ => false
+                           end
+           end).
+Check (eq_refl : stopped_in_net =
+  fun q n tag e => lv_net q = Some n /\ lv_stop q = Some (e, tag) /\ lv_transport q = None).
+Check (eq_refl : net_outcome =
+  fun behind pw q =>
+    match pw with
+    | P2RejNet _ n tag e => stopped_in_net q n tag e
+    | P2Fb _ _ inc resumed =>
+        exists n, lv_net q = Some n /\ net_flags n = Some (inc, LsSlice) /\
+          match resumed with
+          | P2RejNet _ n' tag e' => n' = n /\ stopped_in_net q n tag e'
+          | P2Acc q' => v_net q' = Some (strictify_net n)
+          | P2Rej q' e' => v_net q' = Some (strictify_net n) /\ behind e' q
+          | _ => False
+          end
+    | _ => True
+    end).
+Check (eq_refl : net_flags =
+  fun n => match n with
+           | LVIpv4 _ _ p | LVIpv6 _ _ _ _ p => Some (lvip_incomplete p, lvip_src p)
+           | LVArp _ => None
+           end).
+
+(* ---- (d), single layer, for LaxIpSlice::from_slice (C05_incomplete_iff lists LaxIpv4Slice / LaxIpv6Slice /
+   LaxMacsecSlice): on every window [pos, lim) of every buffer the payload of the returned IPv4 / IPv6 slice
+   is marked incomplete exactly when the total length (40 + payload length) read at the window's start
+   exceeds the window; then len_source = Slice and the payload ends at the window's end
+   (net_flag_ok / ip_flag_ok pinned above; the whole buffer is `repr_whole`) *)
+Theorem C05_incomplete_iff_ipslice : forall bs s pos lim ip st,
+  bytes_ok bs -> repr bs s pos lim ->
+  LaxIpSlice.from_slice s = Ok (ip, st) ->
+  net_flag_ok bs (pos, lim - pos) (lview_net (LaxSlicedPacketCursor.net_of_ip ip)).
+Proof. exact lax_ipslice_incomplete. Qed.
+Print Assumptions C05_incomplete_iff_ipslice.
+
+(* ---- non-vacuity ----------------------------------------------------------------------------------------- *)
+(* the auditor's packet: Ethernet II / IPv6 (payload length 20) / destination options (8 bytes, complete,
+   next = routing) / routing header announcing 16 bytes with 12 present.  pwire hands back no network layer;
+   pwire2 hands back the IPv6 header, first next-header 60, the extension window [54, 62) and the payload
+   descriptor (number 43, [62, 74)); lax has exactly that network layer and the stop error on Ipv6RouteHeader *)
+Definition ex_v6_route_cut : bytes :=
+  [1;2;3;4;5;6; 7;8;9;10;11;12; 134;221;
+   96;0;0;0; 0;20; 60;64] ++ repeat 0 32 ++ [43;0;0;0;0;0;0;0] ++ [17;1;0;0;0;0;0;0;0;0;0;0].
+Definition ex_v6_route_err : slice_error :=
+  ELen (mkLenError 16 12 LsIpv6HeaderPayloadLen LyIpv6ExtHeader 62).
+Definition ex_v6_route_net : lvnet :=
+  LVIpv6 (14, 40) (Some 60) false (54, 8) (mkLVIp false 43 false LsIpv6HeaderPayloadLen (62, 12)).
+Example C05_ex_prefix_net_v6 :
+  bytes_ok ex_v6_route_cut /\ 14 <= len ex_v6_route_cut /\
+  SlicedPacket.from_ethernet ex_v6_route_cut = Err ex_v6_route_err /\
+  in_net_layer ex_v6_route_err = true /\
+  pwire_ethernet ex_v6_route_cut =
+    PRej (mkVPacket (Some (VEthernet2 (0, 74))) [] None None) ex_v6_route_err /\
+  pwire2_ethernet ex_v6_route_cut =
+    P2RejNet (mkVPacket (Some (VEthernet2 (0, 74))) [] None None) ex_v6_route_net
+      LyIpv6RouteHeader ex_v6_route_err /\
+  exists r', LaxSlicedPacket.from_ethernet ex_v6_route_cut = Ok r' /\
+    lv_net (lview r') = Some ex_v6_route_net /\
+    lsp_stop_err r' = Some (ex_v6_route_err, LyIpv6RouteHeader).
+Proof.
+  split; [apply bytes_okb_spec; vm_compute; reflexivity|].
+  split; [vm_compute; discriminate|].
+  split; [vm_compute; reflexivity|]. split; [reflexivity|].
+  split; [vm_compute; reflexivity|]. split; [vm_compute; reflexivity|].
+  eexists. split; [vm_compute; reflexivity|]. split; reflexivity.
+Qed.
+
+(* bare IPv4 (total length 32) / authentication header with payload length 0: content error; the network
+   layer handed back = IPv4 header, no authentication header, payload (number 51) = the 12 bytes behind *)
+Definition ex_v4_ah_zero : bytes :=
+  [69;0;0;32; 0;0;0;0; 64;51;0;0; 1;2;3;4; 5;6;7;8] ++ [17;0;0;0;0;0;0;0;0;0;0;0].
+Example C05_ex_prefix_net_v4 :
+  bytes_ok ex_v4_ah_zero /\ ip_header_fault ex_v4_ah_zero = None /\
+  SlicedPacket.from_ip ex_v4_ah_zero = Err (EContent CeAuthZeroPayloadLen) /\
+  pwire2_from_ip ex_v4_ah_zero =
+    P2RejNet empty_packet (LVIpv4 (0, 20) None (mkLVIp false 51 false LsIpv4HeaderTotalLen (20, 12)))
+      LyIpAuthHeader (EContent CeAuthZeroPayloadLen) /\
+  exists r', LaxSlicedPacket.from_ip ex_v4_ah_zero = Ok r' /\
+    lv_net (lview r') = Some (LVIpv4 (0, 20) None (mkLVIp false 51 false LsIpv4HeaderTotalLen (20, 12))) /\
+    lsp_stop_err r' = Some (EContent CeAuthZeroPayloadLen, LyIpAuthHeader).
+Proof.
+  split; [apply bytes_okb_spec; vm_compute; reflexivity|].
+  split; [vm_compute; reflexivity|]. split; [vm_compute; reflexivity|].
+  split; [vm_compute; reflexivity|].
+  eexists. split; [vm_compute; reflexivity|]. split; reflexivity.
+Qed.
+
+(* length fallback: bare IPv4 announcing 100 bytes with 24 present, protocol 51, 4 bytes of an
+   authentication header: strict rejects at the total length; the resumed decoding fails at the
+   authentication header; lax: payload incomplete, length source Slice, ends at the slice end, stop error
+   = the resumed decoder's on IpAuthHeader.  Also an instance of C05_incomplete_iff_ipslice *)
+Definition ex_v4_fb_ah : bytes :=
+  [69;0;0;100; 0;0;0;0; 64;51;0;0; 1;2;3;4; 5;6;7;8] ++ [17;4;0;0].
+Example C05_ex_prefix_net_fallback :
+  bytes_ok ex_v4_fb_ah /\ ip_header_fault ex_v4_fb_ah = None /\
+  SlicedPacket.from_ip ex_v4_fb_ah = Err (ELen (mkLenError 100 24 LsSlice LyIpv4Packet 0)) /\
+  pwire2_from_ip ex_v4_fb_ah =
+    P2Fb empty_packet (ELen (mkLenError 100 24 LsSlice LyIpv4Packet 0)) true
+      (P2RejNet empty_packet (LVIpv4 (0, 20) None (mkLVIp true 51 false LsSlice (20, 4)))
+         LyIpAuthHeader (ELen (mkLenError 12 4 LsSlice LyIpAuthHeader 20))) /\
+  (exists r', LaxSlicedPacket.from_ip ex_v4_fb_ah = Ok r' /\
+    lv_net (lview r') = Some (LVIpv4 (0, 20) None (mkLVIp true 51 false LsSlice (20, 4))) /\
+    lsp_stop_err r' = Some (ELen (mkLenError 12 4 LsSlice LyIpAuthHeader 20), LyIpAuthHeader)) /\
+  exists ip st, LaxIpSlice.from_slice (mk_slice ex_v4_fb_ah) = Ok (ip, st) /\
+    lview_net (LaxSlicedPacketCursor.net_of_ip ip) =
+      LVIpv4 (0, 20) None (mkLVIp true 51 false LsSlice (20, 4)).
+Proof.
+  split; [apply bytes_okb_spec; vm_compute; reflexivity|].
+  split; [vm_compute; reflexivity|]. split; [vm_compute; reflexivity|].
+  split; [vm_compute; reflexivity|]. split.
+  - eexists. split; [vm_compute; reflexivity|]. split; reflexivity.
+  - eexists _, _. split; vm_compute; reflexivity.
+Qed.
+(* ---- end audit round 1 ---- *)
